@@ -97,6 +97,7 @@ def absdot : List Float → List Float → Float
   | _, _ => 0.0
 
 def negInf : Float := -(1.0 / 0.0)
+def posInf : Float := 1.0 / 0.0
 
 structure SolveRec where
   miu : Float
@@ -199,9 +200,11 @@ def pairsS (ps : List (Pair Float)) : List Float := (ps.map (·.s)).flatten
 def doAppend (c : Ctx) (b : BeginRec) (kept : List (Pair Float)) (st : St) : St :=
   let act := active c.eps0 b.pairs b.alphas
   let full := act.length + 1 = c.capacity
-  -- the oracle answer of `delete_largest`: the threshold, recovered from the logged survivors
+  -- the oracle answer of `delete_largest`: the threshold (rows with `e >= thres` go), recovered from the logged survivors
+  -- as the smallest active error above every surviving one
   let sub := if full then kept.dropLast else kept
-  let thres := (pairsE sub).foldl fmax negInf
+  let maxKept := (pairsE sub).foldl fmax negInf
+  let thres := (act.map (·.1.e)).foldl (fun m e => if maxKept < e && e < m then e else m) posInf
   let mk := reduce c.capacity c.eps0 thres c.n b.pairs b.alphas
   let post := appendStep b.serious kept b.x b.fx b.y b.gy b.fy
   let simplex := if full then simplexOK (act.map (·.2)) else true
@@ -210,12 +213,29 @@ def doAppend (c : Ctx) (b : BeginRec) (kept : List (Pair Float)) (st : St) : St 
       (kept.map (fun p => fabs p.e + fabs b.fy + fabs b.fx + absdot p.s d)).foldl fmax 0.0
     else fabs b.fx + fabs b.fy + absdot b.gy (vsub b.x b.y)
   let scaleA := (act.map (fun pa => fabs pa.2 * maxAbs pa.1.s)).foldl (· + ·) 0.0
+  -- `assert(m_size < capacity())`, bundle.cpp:160
+  let below := decide (post.pairs.length < c.capacity)
   st.emit ["append", gI (if b.serious then 1 else 0), gL (pairsE mk), gS scaleA, gL (pairsS mk),
-           gS scaleE, gL (pairsE post.pairs), gL (pairsS post.pairs), gB simplex]
+           gS scaleE, gL (pairsE post.pairs), gL (pairsS post.pairs), gB (simplex && below)]
 
 def doSolve (s : SolveRec) (st : St) : St :=
-  let ok := simplexOK s.alphas && (s.alphas.length != 1 || s.alphas == [1.0]) && s.alphas.length == s.pairs.length
-  { st.emit ["solve", gB ok] with solve := some s }
+  let ok := simplexOK s.alphas && (s.alphas.length != 1 || s.alphas == solve1) && s.alphas.length == s.pairs.length
+  -- the analytic path for two rows, replayed unless the quadratic is degenerate (q ~ 0) or the answer sits on a branch point
+  let two : List String := match s.pairs with
+    | [p0, p1] =>
+      let q00 := dot p0.s p0.s
+      let q11 := dot p1.s p1.s
+      let q01 := dot p0.s p1.s
+      let q := q00 + q11 - q01 - dot p1.s p0.s
+      let p := (q01 + dot p1.s p0.s) / 2 - q11 + s.miu * p0.e - s.miu * p1.e
+      let b := -p / q
+      let sp := fabs q01 + fabs q11 + fabs (s.miu * p0.e) + fabs (s.miu * p1.e)
+      let sb := (sp + fabs p * (q00 + q11) / fabs q) / fabs q
+      let m := 1e-6 + 1e-9 * sb
+      if !(fabs q > 1e-6 * (q00 + q11)) || fabs b < m || fabs (b - 1) < m || !b.isFinite then ["L ?"]
+      else [gS sb, gL (solve2 Float.isFinite s.miu p0 p1)]
+    | _ => ["L ?"]
+  { st.emit (["solve", gB ok] ++ two) with solve := some s }
 
 def statusOfOutcome : Outcome Float → Nat
   | .stop s => s.toNat
